@@ -14,8 +14,10 @@ from sim.core import OK, VIOLATION, DISCARD, sub_rng
 from sim import repo
 
 LIST_OBS = ["getitem", "getitem", "slice", "slice", "len", "bool", "contains", "eq_list", "eq_lazy", "count",
-            "reversed", "iterate", "listify", "copy", "iter", "force"]
-REPRS = ["list", "gen", "iter", "range", "map", "tuple"]
+            "reversed", "iterate", "listify", "copy", "iter", "force", "h_has_ind", "h_concat", "h_scalarify", "h_iterable"]
+REPRS = ["list", "gen", "iter", "range", "map", "tuple", "lazy", "lazycopy"]
+# item kinds other than small ints: equal items, strings, nested lists (needles for contains / count are drawn from them)
+ITEM_POOLS = {"eq": [1, 1, 1, 2], "str": ["a", "b", "ab", "a"], "nest": [[1], [1, 2], [], [1]], "mix": [0, "a", [1], 1, "a", [1]]}
 
 
 class Unjudged(Exception):
@@ -44,8 +46,8 @@ class C13(core.Check):
     id = "C13"
     title = "A finite lazy list is indistinguishable from the list it enumerates"
     tiers = {
-        "quick": dict(runs=240_000, batch=2000, wall=70),
-        "thorough": dict(runs=6_000_000, batch=5000, wall=800),
+        "quick": dict(runs=1_000_000, batch=5000, wall=70),
+        "thorough": dict(runs=24_000_000, batch=10000, wall=800),
     }
     components_real = ["vyxal/LazyList.py (LazyList, every dunder and method exercised)", "vyxal/helpers.py deep_copy, "
                        "vyxalify, simplify"]
@@ -68,6 +70,7 @@ class C13(core.Check):
         m = repo.load()
         self.LazyList = m["LazyList"].LazyList
         self.deep_copy = m["helpers"].deep_copy
+        self.helpers = m["helpers"]
 
     # ---------------------------------------------------------------- generation
     def gen(self, seed, run, tier):
@@ -84,6 +87,10 @@ class C13(core.Check):
             src = [rw.randint(0, hi) for _ in range(n)]
             nev = rw.randint(1, 12)
         rep = rw.choice(REPRS)
+        pool = None
+        if not small and rw.random() < 0.3 and rep != "range":
+            pool = ITEM_POOLS[rw.choice(sorted(ITEM_POOLS))]
+            src = [rw.choice(pool) for _ in range(n)]
         if rep == "range":
             a = rw.randint(0, 2)
             src = list(range(a, a + n))
@@ -111,12 +118,17 @@ class C13(core.Check):
                 c = rs.choice([None, None, 1, 1, 2, 3, -1, -1, -2])
                 events.append([k, h, pick(), pick(), c])
             elif k in ("contains", "count"):
-                events.append([k, h, rs.randint(0, 3)])
+                events.append([k, h, rs.choice(pool) if pool else rs.randint(0, 3)])
+            elif k == "h_has_ind":
+                events.append([k, h, rs.randint(-2, n + 2)])
+            elif k == "h_concat":
+                events.append([k, h, [rs.randint(0, 3) for _ in range(rs.randint(0, 2))]])
             elif k == "eq_list":
                 other = list(src)
                 r = rs.random()
                 if r < 0.3 and other:
-                    other[rs.randrange(len(other))] += 1
+                    j = rs.randrange(len(other))
+                    other[j] = other[j] + 1 if isinstance(other[j], int) else 7
                 elif r < 0.45:
                     other = other[:-1] if other else [0]
                 elif r < 0.55:
@@ -156,6 +168,10 @@ class C13(core.Check):
             return self.LazyList(map(lambda x: x, list(src)))
         if rep == "tuple":
             return self.LazyList(tuple(src))
+        if rep == "lazy":
+            return self.LazyList(self.LazyList(list(src)))          # a lazy list over another lazy list
+        if rep == "lazycopy":
+            return self.deep_copy(self.LazyList(iter(list(src))))    # what `:` leaves on the stack
         raise ValueError(rep)
 
     def norm(self, v):
@@ -282,6 +298,15 @@ class C13(core.Check):
                     want, got = list(src), self.norm(list(h))
                 elif kind == "listify":
                     want, got = list(src), self.norm(h.listify())
+                elif kind == "h_has_ind":
+                    want, got = int(0 <= ev[2] < n), int(bool(self.helpers.has_ind(h, ev[2])))
+                elif kind == "h_concat":
+                    want, got = list(src) + list(ev[2]), self.norm(self.helpers.concat(h, list(ev[2])))
+                elif kind == "h_scalarify":
+                    want = src[0] if n == 1 else list(src)
+                    got = self.norm(self.helpers.scalarify(h))
+                elif kind == "h_iterable":
+                    want, got = list(src), self.norm(self.helpers.iterable(h))
                 elif kind == "copy":
                     judge = False
                     if ev[2] in handles:
@@ -334,12 +359,12 @@ class C13(core.Check):
             for i in range(len(src)):
                 yield dict(case, src=src[:i] + src[i + 1:])
             for i, x in enumerate(src):
-                if x > 0:
+                if not isinstance(x, int) or x > 0:
                     yield dict(case, src=src[:i] + [0] + src[i + 1:])
         for j, ev in enumerate(case["events"]):
             for k in range(2, len(ev)):
                 v = ev[k]
-                if isinstance(v, int) and not isinstance(v, bool) and ev[0] in ("getitem", "slice", "contains", "count"):
+                if isinstance(v, int) and not isinstance(v, bool) and ev[0] in ("getitem", "slice", "contains", "count", "h_has_ind"):
                     for nv in sorted({0, v // 2, v - 1 if v > 0 else v + 1} - {v}, key=abs):
                         if ev[0] == "slice" and k == 4 and nv == 0:
                             continue  # a slice step of 0 is never generated
